@@ -457,6 +457,10 @@ class Evaluator:
         if isinstance(s, ast.Assign):
             if len(s.targets) != 1:
                 raise Undecided("chained assignment", fr.f.loc(s))
+            t0 = s.targets[0]
+            if isinstance(t0, ast.Subscript) and isinstance(t0.slice, ast.Slice) and isinstance(t0.value, ast.Name) and isinstance(env.get(t0.value.id), ZerosV) \
+                    and not env[t0.value.id].stores and t0.slice.step is None:
+                return self.exec_slice_store(s, t0, p, fr)
             outs = []
             for conds, val in self.eval_paths(s.value, p, fr):
                 if isinstance(val, _Raised):
@@ -546,6 +550,64 @@ class Evaluator:
             return outs
         raise Undecided("statement kind %s not modelled" % type(s).__name__, fr.f.loc(s))
 
+    def exec_slice_store(self, s, t0, p, fr):
+        """zeros[lo:hi] = <per-window values>: the array becomes zeros(lo) + values + zeros(n - hi) when the lengths agree, a ValueError when
+        they provably do not.  An upper bound written `-b` is n - b for b > 0 and 0 for b == 0 (numpy/python slicing): both cases are followed"""
+        env = p.env
+        z = env[t0.value.id]
+        n = z.n
+        lo = _as_rat(self.eval(t0.slice.lower, env, fr)) if t0.slice.lower is not None else Rat.const(0)
+        if lo is None:
+            raise Undecided("slice store with a non-numeric lower bound", fr.f.loc(s))
+        up = t0.slice.upper
+        cases = []           # (extra conds, hi)
+        if up is None:
+            cases.append(([], n))
+        elif isinstance(up, ast.UnaryOp) and isinstance(up.op, ast.USub):
+            b = _as_rat(self.eval(up.operand, env, fr))
+            if b is None:
+                raise Undecided("slice store with a non-numeric upper bound", fr.f.loc(s))
+            if b.is_const():
+                c = b.const_value()
+                cases.append(([], Rat.const(0) if c == 0 else (n - b if c > 0 else Rat.const(-c))))
+            else:
+                cases.append(([("cmp", b, "==", Rat.const(0))], Rat.const(0)))
+                cases.append(([("cmp", b, ">", Rat.const(0))], n - b))
+                cases.append(([("cmp", b, "<", Rat.const(0))], None))
+        else:
+            hi = _as_rat(self.eval(up, env, fr))
+            if hi is None:
+                raise Undecided("slice store with a non-numeric upper bound", fr.f.loc(s))
+            cases.append(([], hi))
+        outs = []
+        for conds, val in self.eval_paths(s.value, p, fr):
+            if isinstance(val, _Raised):
+                outs.append(Path(conds, "raise", val.name, env))
+                continue
+            vlen = val.n if isinstance(val, (ProfileV, ZerosV)) else None
+            if vlen is None:
+                raise Undecided("slice store of a value whose length lcsa does not know", fr.f.loc(s))
+            for extra, hi in cases:
+                cc = list(conds) + extra
+                from .dt import feasible_with
+                pos = set(self.positive) if hasattr(self, "positive") else set()
+                ints = set(getattr(self, "int_atoms", set()) or set())
+                if extra and feasible_with(cc, [], pos, int_atoms=ints or None) is None:
+                    continue
+                if hi is None:
+                    outs.append(Path(cc, "raise", "lcsa:slice bound not followed", env))
+                    continue
+                width = hi - lo
+                if width.equals(vlen):
+                    e2 = dict(env)
+                    e2[t0.value.id] = ConcatV([ZerosV(lo), val, ZerosV(n - hi)])
+                    outs.append(Path(cc, "live", None, e2))
+                elif feasible_with(cc + [("cmp", width, "==", vlen)], [], pos, int_atoms=ints or None) is None:
+                    outs.append(Path(cc, "raise", "ValueError", env))        # shapes cannot match
+                else:
+                    raise Undecided("slice store: cannot relate the slice width %r to the number of values %r" % (width, vlen), fr.f.loc(s))
+        return outs
+
     def exec_call_stmt(self, call, p, fr):
         # lst.append(x) on a list accumulator
         fn = call.func
@@ -624,6 +686,8 @@ class Evaluator:
                 d[_pykey(idx)] = val
                 env[key] = d
                 return
+            if target.value.attr.split("__")[-1] in {t.split("__")[-1] for t in MEMO_OK_TABLES}:
+                return                  # an entry added to a key-complete result table: no influence on what is returned
             raise Undecided("store into self.%s[...] not modelled" % target.value.attr, fr.f.loc(target))
         if isinstance(target, ast.Subscript) and isinstance(target.value, ast.Name) \
                 and isinstance(env.get(target.value.id), ArrV):
@@ -750,107 +814,166 @@ class Evaluator:
         dom = "" if full else "|%r..%r" % (lo, hi)
         assigned = _assigned_names(s.body)
         pre = p.env
-        incs = {}          # name -> {letter: Rat}
-        appends = {}       # name -> {letter: [values]}
-        strapp = {}        # name -> {letter: str}
-        dictincs = {}      # name -> {letter: {key: Rat}}
-        raises = {}        # letter -> exception name
-        flags = set()
-        for L in (self.universe if base.kind == "seq" else ["*"]):
-            env = dict(pre)
-            marks = {}
-            for name in assigned:
-                v = pre.get(name)
-                if isinstance(v, Rat):
-                    a = "@acc:" + name
-                    marks[name] = a
-                    env[name] = Rat.atom(a)
-                elif isinstance(v, dict) and v and all(isinstance(x, Rat) for x in v.values()):
-                    env[name] = {k: Rat.atom("@acc:%s[%s]" % (name, k)) for k in v}
-                    marks[name] = "dict"
-                elif isinstance(v, ListAcc):
-                    env[name] = ListAcc([])
-                    marks[name] = "list"
-                elif isinstance(v, str):
-                    env[name] = _StrAcc("")
-                    marks[name] = "str"
-            if by_index:
-                env[var] = Rat.atom("@i")
-                fr2 = fr.with_elem(L, "@i")
-            else:
-                env[var] = L if base.kind == "seq" else Rat.atom("@el:" + base.key())
-                fr2 = fr
-                if idx_var is not None:
-                    env[idx_var] = Rat.atom("@i") + idx_start
+        def scan(pre, noacc=()):
+            """the per-letter evaluation of the body, started with the loop-carried names as they are in `pre` (names in `noacc` are flags
+            given a trial value: they are not accumulators, whatever the type of that value)"""
+            flagvals = []
+            incs = {}          # name -> {letter: Rat}
+            appends = {}       # name -> {letter: [values]}
+            strapp = {}        # name -> {letter: str}
+            dictincs = {}      # name -> {letter: {key: Rat}}
+            raises = {}        # letter -> exception name
+            flags = set()
+            for L in (self.universe if base.kind == "seq" else ["*"]):
+                env = dict(pre)
+                marks = {}
+                for name in [a_ for a_ in assigned if a_ not in noacc]:
+                    v = pre.get(name)
+                    if isinstance(v, Rat):
+                        a = "@acc:" + name
+                        marks[name] = a
+                        env[name] = Rat.atom(a)
+                    elif isinstance(v, dict) and v and all(isinstance(x, Rat) for x in v.values()):
+                        env[name] = {k: Rat.atom("@acc:%s[%s]" % (name, k)) for k in v}
+                        marks[name] = "dict"
+                    elif isinstance(v, ListAcc):
+                        env[name] = ListAcc([])
+                        marks[name] = "list"
+                    elif isinstance(v, str):
+                        env[name] = _StrAcc("")
+                        marks[name] = "str"
+                if by_index:
+                    env[var] = Rat.atom("@i")
                     fr2 = fr.with_elem(L, "@i")
-            if base.kind != "seq":
-                raise Undecided("element loop over %s" % base.key(), fr.f.loc(s))
-            res = self.exec_block(s.body, [Path([], "live", None, env)], fr2)
-            res = [Path(r.conds, "live", None, r.env) if r.kind == "continue" else r for r in res]
-            kinds = {r.kind for r in res}
-            if kinds == {"raise"}:
-                raises[L] = res[0].value
-                continue
-            if kinds - {"live"}:
-                raise Undecided("element loop body leaves the loop on some path (letter %s: %s)"
-                                % (L, sorted(kinds)), fr.f.loc(s))
-            # all live paths must agree on the accumulator effects
-            eff = None
-            for r in res:
-                cur = {}
-                for name, mk in marks.items():
-                    v = r.env.get(name)
-                    if mk == "dict":
-                        d = {}
-                        if not isinstance(v, dict) or set(v) != set(pre[name]):
-                            raise Undecided("counter table %s changes its key set in the loop" % name, fr.f.loc(s))
-                        for k, x in v.items():
-                            a = "@acc:%s[%s]" % (name, k)
-                            if not isinstance(x, Rat):
-                                raise Undecided("counter %s[%s] no longer numeric" % (name, k), fr.f.loc(s))
-                            inc = x - Rat.atom(a)
-                            if any(t.startswith("@") for t in inc.atoms()):
-                                raise Undecided("counter %s[%s] is not updated additively" % (name, k), fr.f.loc(s))
-                            d[k] = inc
-                        cur[name] = ("dict", tuple(sorted((str(k), repr(x)) for k, x in d.items())), d)
-                    elif mk == "list":
-                        cur[name] = ("list", tuple(_vkey(x) for x in v.items), v.items)
-                    elif mk == "str":
-                        if not isinstance(v, _StrAcc):
-                            raise Undecided("string accumulator %s overwritten in loop" % name, fr.f.loc(s))
-                        cur[name] = ("str", v.s, v.s)
+                else:
+                    env[var] = L if base.kind == "seq" else Rat.atom("@el:" + base.key())
+                    fr2 = fr
+                    if idx_var is not None:
+                        env[idx_var] = Rat.atom("@i") + idx_start
+                        fr2 = fr.with_elem(L, "@i")
+                if base.kind != "seq":
+                    raise Undecided("element loop over %s" % base.key(), fr.f.loc(s))
+                res = self.exec_block(s.body, [Path([], "live", None, env)], fr2)
+                res = [Path(r.conds, "live", None, r.env) if r.kind == "continue" else r for r in res]
+                kinds = {r.kind for r in res}
+                if kinds == {"raise"}:
+                    raises[L] = res[0].value
+                    continue
+                if kinds - {"live"}:
+                    raise Undecided("element loop body leaves the loop on some path (letter %s: %s)"
+                                    % (L, sorted(kinds)), fr.f.loc(s))
+                # all live paths must agree on the accumulator effects
+                eff = None
+                for r in res:
+                    cur = {}
+                    for name, mk in marks.items():
+                        v = r.env.get(name)
+                        if mk == "dict":
+                            d = {}
+                            if not isinstance(v, dict) or set(v) != set(pre[name]):
+                                raise Undecided("counter table %s changes its key set in the loop" % name, fr.f.loc(s))
+                            for k, x in v.items():
+                                a = "@acc:%s[%s]" % (name, k)
+                                if not isinstance(x, Rat):
+                                    raise Undecided("counter %s[%s] no longer numeric" % (name, k), fr.f.loc(s))
+                                inc = x - Rat.atom(a)
+                                if any(t.startswith("@") for t in inc.atoms()):
+                                    raise Undecided("counter %s[%s] is not updated additively" % (name, k), fr.f.loc(s))
+                                d[k] = inc
+                            cur[name] = ("dict", tuple(sorted((str(k), repr(x)) for k, x in d.items())), d)
+                        elif mk == "list":
+                            cur[name] = ("list", tuple(_vkey(x) for x in v.items), v.items)
+                        elif mk == "str":
+                            if not isinstance(v, _StrAcc):
+                                raise Undecided("string accumulator %s overwritten in loop" % name, fr.f.loc(s))
+                            cur[name] = ("str", v.s, v.s)
+                        else:
+                            if not isinstance(v, Rat):
+                                raise Undecided("accumulator %s no longer numeric" % name, fr.f.loc(s))
+                            inc = v - Rat.atom(mk)
+                            if mk in inc.atoms():
+                                raise Undecided("accumulator %s is not updated additively" % name, fr.f.loc(s))
+                            if "@i" in inc.atoms():
+                                raise Undecided("fold term of %s depends on the position itself" % name, fr.f.loc(s))
+                            if any("(" in a for a in inc.d.atoms()):
+                                inc = Rat.atom(self.term_atom(inc))
+                            cur[name] = ("num", inc, inc)
+                    if eff is None:
+                        eff = cur
                     else:
-                        if not isinstance(v, Rat):
-                            raise Undecided("accumulator %s no longer numeric" % name, fr.f.loc(s))
-                        inc = v - Rat.atom(mk)
-                        if mk in inc.atoms():
-                            raise Undecided("accumulator %s is not updated additively" % name, fr.f.loc(s))
-                        if "@i" in inc.atoms():
-                            raise Undecided("fold term of %s depends on the position itself" % name, fr.f.loc(s))
-                        if any("(" in a for a in inc.d.atoms()):
-                            inc = Rat.atom(self.term_atom(inc))
-                        cur[name] = ("num", inc, inc)
-                if eff is None:
-                    eff = cur
-                else:
-                    for name in cur:
-                        a, b = eff[name], cur[name]
-                        same = a[1].equals(b[1]) if a[0] == "num" else a[1] == b[1]
-                        if not same:
-                            raise Undecided("paths of the loop body disagree on %s for letter %s (conditions %s)"
-                                            % (name, L, fmt_conds(r.conds)), fr.f.loc(s))
-                for name in r.env:
-                    if name not in marks and name in assigned and name != var:
-                        flags.add(name)
-            for name, (k, _, v) in (eff or {}).items():
-                if k == "num":
-                    incs.setdefault(name, {})[L] = v
-                elif k == "dict":
-                    dictincs.setdefault(name, {})[L] = v
-                elif k == "list":
-                    appends.setdefault(name, {})[L] = v
-                else:
-                    strapp.setdefault(name, {})[L] = v
+                        for name in cur:
+                            a, b = eff[name], cur[name]
+                            same = a[1].equals(b[1]) if a[0] == "num" else a[1] == b[1]
+                            if not same:
+                                raise Undecided("paths of the loop body disagree on %s for letter %s (conditions %s)"
+                                                % (name, L, fmt_conds(r.conds)), fr.f.loc(s))
+                    for name in r.env:
+                        if name not in marks and name in assigned and name != var:
+                            flags.add(name)
+                            flagvals.append((name, r.env.get(name)))
+                for name, (k, _, v) in (eff or {}).items():
+                    if k == "num":
+                        incs.setdefault(name, {})[L] = v
+                    elif k == "dict":
+                        dictincs.setdefault(name, {})[L] = v
+                    elif k == "list":
+                        appends.setdefault(name, {})[L] = v
+                    else:
+                        strapp.setdefault(name, {})[L] = v
+            return incs, appends, strapp, dictincs, raises, flags, flagvals
+        pre0 = pre
+        incs, appends, strapp, dictincs, raises, flags, flagvals = scan(pre0)
+        # loop-carried flags (names the body assigns that are not accumulators): the per-letter effects above were computed with their values
+        # before the loop.  Every other valuation the body can leave them in is tried as well; the effects must not depend on it
+        read_in_body = {x.id for st in s.body for x in ast.walk(st) if isinstance(x, ast.Name) and isinstance(x.ctx, ast.Load)}
+        from .flow import local_read_before_assigned
+        live_flags = sorted(f_ for f_ in flags if f_ in read_in_body and local_read_before_assigned(s.body, f_))
+        if live_flags:
+            def concrete(v):
+                return isinstance(v, (bool, str, int)) or v is None or (isinstance(v, Rat) and v.is_const())
+
+            def sig(res, L):
+                incs_, apps_, strs_, dicts_, raises_ = res[:5]
+                if L in raises_:
+                    return ("raise",)
+                return ("fx", tuple(sorted((n_, repr(per.get(L))) for n_, per in incs_.items())),
+                        tuple(sorted((n_, repr([_vkey(x) for x in per.get(L, [])])) for n_, per in apps_.items())),
+                        tuple(sorted((n_, per.get(L)) for n_, per in strs_.items())),
+                        tuple(sorted((n_, repr(sorted((str(k), repr(x)) for k, x in per.get(L, {}).items()))) for n_, per in dicts_.items())))
+            letters = list(self.universe if base.kind == "seq" else ["*"])
+            base_res = (incs, appends, strapp, dictincs, raises)
+            start = tuple((f_, pre0.get(f_)) for f_ in live_flags)
+            seen_vals = {repr(start)}
+            work = []
+
+            def push(vals):
+                byname = {}
+                for n_, v_ in vals:
+                    if n_ in live_flags:
+                        byname.setdefault(n_, []).append(v_)
+                for n_, vs in byname.items():
+                    for v_ in vs:
+                        if not concrete(v_):
+                            raise Undecided("loop-carried %s is read in the loop body and takes a value lcsa cannot enumerate" % n_, fr.f.loc(s))
+                        cand = tuple((f_, v_ if f_ == n_ else pre0.get(f_)) for f_ in live_flags)
+                        if repr(cand) not in seen_vals:
+                            seen_vals.add(repr(cand))
+                            work.append(cand)
+            push(flagvals)
+            while work:
+                if len(seen_vals) > 8:
+                    raise Undecided("too many valuations of the loop-carried flags %s" % live_flags, fr.f.loc(s))
+                cand = work.pop()
+                pre2 = dict(pre0)
+                pre2.update(dict(cand))
+                res2 = scan(pre2, noacc=tuple(live_flags))
+                for L in letters:
+                    a, b = sig(base_res, L), sig(res2[:5], L)
+                    if a != b:
+                        raise FlagDependent("what the loop does with %r depends on the loop-carried %s (what came before in the sequence)" % (L, dict(cand)),
+                                            fr.f.loc(s), letter=L, valuation=dict(cand), first=a, later=b)
+                push(res2[6])
+        pre = pre0
         env = dict(pre)
         for name in flags:
             env[name] = UnknownV("loop-carried %s" % name)
@@ -1086,9 +1209,23 @@ class Evaluator:
                 r = (a is None and b is None)
                 return r if name == "Is" else not r
             raise Undecided("identity comparison", fr.f.loc(node))
+        if name in ("In", "NotIn") and isinstance(a, PyType) and isinstance(b, (list, tuple)) and all(isinstance(x, PyType) for x in b):
+            names = {x.name for x in b}
+            if a.name == "number":
+                if {"int", "float"} <= names:
+                    return name == "In"
+                if not ({"int", "float", "bool"} & names):
+                    return name != "In"
+                raise Undecided("class of a number against %s (int and float are not told apart)" % sorted(names), fr.f.loc(node))
+            return (a.name in names) == (name == "In")
         if name in ("In", "NotIn"):
             if isinstance(b, ListAcc):
                 b = list(b.items)
+            if isinstance(b, Rat) and len(b.atoms()) == 1 and next(iter(b.atoms())).startswith("F:") \
+                    and next(iter(b.atoms()))[2:].split("__")[-1] in {t.split("__")[-1] for t in MEMO_OK_TABLES}:
+                # a result table MEMO-KEY showed key-complete: what the function returns is what its computing path returns, so the lookup is
+                # followed as a miss (who may share the stored object is C15's question)
+                return name != "In"
             if isinstance(a, AStr) and isinstance(b, (list, tuple)) and all(isinstance(x, str) for x in b):
                 c = ("opaque", "%s in %s" % (a.tag, "".join(sorted(b))))
                 return c if name == "In" else c_not(c)
@@ -1108,6 +1245,11 @@ class Evaluator:
                 cnt = Rat.atom("cnt[%s]" % a)
                 last = ("opaque", "seq[-1]==%r" % a)
                 c = ("or", [("cmp", cnt, ">=", Rat.const(2)), ("and", [("cmp", cnt, ">=", Rat.const(1)), c_not(last)])])
+                return c if name == "In" else c_not(c)
+            if isinstance(a, str) and len(a) == 1 and isinstance(b, WinV) and b.base.kind == "seq" and a in self.universe \
+                    and isinstance(b.lo, Rat) and b.lo.equals(Rat.const(0)) and isinstance(b.hi, Rat) and b.hi.equals(Rat.atom("N") - Rat.atom("trail[%s]" % a)):
+                # the sequence without its trailing run of `a`: `a` still occurs iff some occurrence lies outside that run
+                c = ("cmp", Rat.atom("cnt[%s]" % a) - Rat.atom("trail[%s]" % a), ">=", Rat.const(1))
                 return c if name == "In" else c_not(c)
             if isinstance(a, str) and len(a) == 1 and isinstance(b, SeqV) and b.kind == "seq":
                 if a in self.universe:
@@ -1208,6 +1350,28 @@ class Evaluator:
             return -v if isinstance(node.op, ast.USub) else v
         if isinstance(node, ast.BinOp):
             return self.eval_binop(node, env, fr)
+        if isinstance(node, ast.BoolOp) and len(node.values) == 2 and not any(isinstance(v, (ast.Compare, ast.BoolOp)) or (isinstance(v, ast.UnaryOp) and isinstance(v.op, ast.Not))
+                                                                                for v in node.values):
+            # `x or default` / `x and y` used for its VALUE: python returns one of the operands, chosen by the truth of the first
+            memo = fr.memo_get(node)
+            if memo is not _MISSING:
+                return memo
+            a = self.eval(node.values[0], env, fr)
+            is_or = isinstance(node.op, ast.Or)
+            truth = None
+            if isinstance(a, tuple) and a and a[0] in ("cmp", "not", "and", "or", "opaque"):
+                return self.cond(node, env, fr)               # a stored condition, combined as a condition
+            if isinstance(a, (bool, str, int, list, tuple, dict)) or a is None:
+                truth = bool(a)
+            elif isinstance(a, Rat) and a.is_const():
+                truth = a.const_value() != 0
+            if truth is not None:
+                return a if truth == is_or else self.eval(node.values[1], env, fr)
+            if isinstance(a, Rat):
+                b = self.eval(node.values[1], env, fr)
+                nz, z = ("cmp", a, "!=", Rat.const(0)), ("cmp", a, "==", Rat.const(0))
+                raise _NeedSplit(node, [([nz], a if is_or else b), ([z], b if is_or else a)])
+            raise Undecided("truth of %s is not modelled" % unparse(node.values[0])[:40], fr.f.loc(node))
         if isinstance(node, (ast.Compare, ast.BoolOp)):
             return self.cond(node, env, fr)
         if isinstance(node, ast.Call):
@@ -1227,6 +1391,9 @@ class Evaluator:
             if a.vararg or a.kwarg or a.kwonlyargs or a.defaults or a.posonlyargs:
                 raise Undecided("lambda with defaults / star parameters", fr.f.loc(node))
             return LambdaV(node, env, fr.f)
+        if isinstance(node, ast.GeneratorExp):
+            # consumed at once by the call it is an argument of (sum, tuple, join, ...): the list of its elements
+            return self.eval(ast.copy_location(ast.ListComp(elt=node.elt, generators=node.generators), node), env, fr)
         if isinstance(node, ast.ListComp) and len(node.generators) == 1:
             return self.eval_listcomp(node, env, fr)
         if isinstance(node, ast.ListComp):
@@ -1358,6 +1525,10 @@ class Evaluator:
         if is_self_attr(node) and ("@self." + node.attr) in env:
             return env["@self." + node.attr]
         base = self.eval(node.value, env, fr)
+        if node.attr == "__class__" and isinstance(base, Rat):
+            return PyType("number")          # an int or a float (the analysis does not tell them apart)
+        if node.attr == "__class__" and isinstance(base, (str, AStr)):
+            return PyType("str")
         if isinstance(base, ObjV):
             if node.attr in base.fields:
                 return base.fields[node.attr]
@@ -1406,6 +1577,9 @@ class Evaluator:
         base = self.eval(node.value, env, fr)
         if isinstance(base, ListAcc):
             base = list(base.items)            # a list built by appends, read back by position
+        if isinstance(base, Rat) and len(base.atoms()) == 1 and next(iter(base.atoms())).startswith("F:") \
+                and next(iter(base.atoms()))[2:].split("__")[-1] in {t.split("__")[-1] for t in MEMO_OK_TABLES}:
+            raise _Raised("KeyError")         # a key-complete result table, followed as a miss (see the membership test)
         sl = node.slice
         if isinstance(sl, ast.Slice):
             if sl.step is not None:
@@ -1711,6 +1885,29 @@ class Evaluator:
                 if isinstance(base, str):
                     return getattr(base, fn.attr)()
                 raise Undecided("method %s on %r" % (fn.attr, base), fr.f.loc(node))
+            if fn.attr == "rstrip" and len(args) == 1 and not node.keywords:
+                memo = fr.memo_get(node)
+                if memo is not _MISSING:
+                    return memo
+                try:
+                    base_r = self.eval(fn.value, env, fr)
+                except Undecided:
+                    base_r = None
+                ch = self.eval(args[0], env, fr)
+                if isinstance(base_r, str) and isinstance(ch, str):
+                    return base_r.rstrip(ch)
+                if isinstance(base_r, SeqV) and base_r.kind == "seq" and isinstance(ch, str) and len(ch) == 1:
+                    if ch not in self.universe:
+                        return base_r
+                    # the trailing run of `ch` is removed: nothing when the last character is another one, exactly the last character when it
+                    # is the only `ch`, otherwise a run of trail[ch] >= 1 characters (a new integer atom, at most the number of `ch` present)
+                    cnt = Rat.atom("cnt[%s]" % ch)
+                    trail = Rat.atom("trail[%s]" % ch)
+                    last = ("and", [("cmp", cnt, ">=", Rat.const(1)), ("opaque", "seq[-1]==%r" % ch)])
+                    raise _NeedSplit(node, [([c_not(last)], base_r),
+                                            ([last, ("cmp", cnt, "==", Rat.const(1))], WinV(base_r, Rat.const(0), Rat.const(-1))),
+                                            ([last, ("cmp", cnt, ">=", Rat.const(2)), ("cmp", trail, ">=", Rat.const(1)), ("cmp", trail, "<=", cnt)],
+                                             WinV(base_r, Rat.const(0), Rat.atom("N") - trail))])
             if fn.attr in ("endswith", "startswith") and len(args) == 1 and not node.keywords:
                 try:
                     base_e = self.eval(fn.value, env, fr)
@@ -2135,6 +2332,7 @@ class Evaluator:
         raise Undecided("numpy/math idiom %s not in the normaliser's table" % attr, fr.f.loc(node))
 
 
+MEMO_OK_TABLES = set()  # names of object-level result tables whose key MEMO-KEY showed complete (filled by props.common.check_memos)
 DECORATORS_OK = set()   # keys of decorated functions whose (memoising) wrapper was shown key-complete by MEMO-KEY
 ABS_REG = {}     # atom name -> Rat it is the absolute value of
 FUNC_REG = {}    # function atom name -> (kind, [argument Rats])
@@ -2287,6 +2485,15 @@ class TransTable(dict):
 
 
 CONCRETE_CTORS = {"Residue"}
+
+
+class FlagDependent(Undecided):
+    """the per-element effect of a loop body depends on a flag an earlier element may have set: the fold over the elements is not a
+    per-letter map.  Undecided for the generic clients; a property that knows the required per-letter behaviour can read the two outcomes"""
+
+    def __init__(self, msg, where=None, letter=None, valuation=None, first=None, later=None):
+        super().__init__(msg, where)
+        self.letter, self.valuation, self.first, self.later = letter, valuation, first, later
 
 
 class SetL(list):
